@@ -500,7 +500,17 @@ def _check_composition(out, exp, cexp, c, where):
     mat = materials.resolveMaterialClassByName(matname)()
     iso = exp["isotopics"].get(cexp["isotopics"]) if cexp["isotopics"] else None
     tin, thot = cexp["Tinput"], cexp["Thot"]
-    if iso is not None:
+    mods = cexp["mods"]
+    cold_density = None
+    if iso is not None and mods:
+        # custom isotopics first, modifications have the final word: on a pure U-Zr vector the UZr fractions replace the
+        # whole vector, so the composition is that of the modified library material; a density fixed by the entry stays
+        out.label("comp:isotopics+mods:" + "+".join(sorted(mods)))
+        if iso["format"] == "number densities":
+            cold_density = sum(n * nuclideBases.byName[nuc].weight for nuc, n in iso["items"].items()) / NA
+        else:
+            cold_density = iso["density"]
+    elif iso is not None:
         out.label("comp:isotopics:%s:%s" % (iso["format"].split()[0], "Custom" if matname == "Custom" else "library"))
         items = iso["items"]
         # expected mass share per element, and the absolute density when the document fixes it
@@ -522,6 +532,15 @@ def _check_composition(out, exp, cexp, c, where):
             got = masses.get(sym, 0.0) / total if total else 0.0
             out.check(_rel(got, emass.get(sym, 0.0) / se, 1e-9), "composition/custom-isotopics-mass-share",
                       lambda: "%s: element %s mass share %r, document %r" % (where, sym, got, emass.get(sym, 0.0) / se))
+        # isotopes named in the entry keep their own share (not only their element's)
+        for nuc, v in items.items():
+            nb = nuclideBases.byName[nuc]
+            if isinstance(nb, nuclideBases.NaturalNuclideBase):
+                continue
+            want_share = (v if iso["format"] == "mass fractions" else v * nb.weight) / se
+            got_share = nd.get(nuc, 0.0) * nb.weight / total if total else 0.0
+            out.check(_rel(got_share, want_share, 1e-9), "composition/custom-isotopics-isotope-share",
+                      lambda: "%s: %s mass share %r, document %r" % (where, nuc, got_share, want_share))
         if iso["format"] == "number densities" and matname == "Custom":
             for nuc, n in items.items():
                 if nuc in nd:  # isotope given directly
@@ -539,23 +558,30 @@ def _check_composition(out, exp, cexp, c, where):
             out.check(_rel(total, sum(rm.values()), 1e-9), "composition/custom-isotopics-keep-library-density",
                       lambda: "%s: density %r, library material %r" % (where, total / NA, sum(rm.values()) / NA))
         return
-    mods = cexp["mods"]
     # reference: the same material class at the same temperatures, built directly; modifications handed to the material
     refmat = materials.resolveMaterialClassByName(matname)()
     if mods:
-        out.label("comp:mods:" + "+".join(sorted(mods)))
+        if iso is None:
+            out.label("comp:mods:" + "+".join(sorted(mods)))
         refmat.applyInputParams(**mods)
     else:
         out.label("comp:plain:" + matname)
     ref = components.Circle("ref", refmat, tin, thot, od=1.0, id=0.0, mult=1)
     rnd = {k: float(v) for k, v in ref.getNumberDensities().items()}
     rm, _rs = _element_masses(rnd)
+    if cold_density is not None:
+        # the entry fixes the density at Tinput: the reference is rescaled to it (radial thinning only, heights are hot)
+        dLL = mat.linearExpansionFactor(Tc=thot, T0=tin)
+        scale = cold_density / (1.0 + dLL) ** 2 * NA / sum(rm.values())
+        rm = {k: v * scale for k, v in rm.items()}
+        rnd = {k: v * scale for k, v in rnd.items()}
+    tol_ref = 1e-10 if cold_density is None else 1e-9
     for sym in sorted(set(rm) | set(masses)):
-        out.check(_rel(masses.get(sym, 0.0), rm.get(sym, 0.0), 1e-10), "composition/differs-from-directly-built-component",
+        out.check(_rel(masses.get(sym, 0.0), rm.get(sym, 0.0), tol_ref), "composition/differs-from-directly-built-component",
                   lambda: "%s (%s, mods %r): element %s mass density %r, directly built %r" % (where, matname, mods, sym, masses.get(sym, 0.0), rm.get(sym, 0.0)))
     for nuc in ("U235", "U238", "B10", "B11"):
         if nuc in rnd or nuc in nd:
-            out.check(_rel(nd.get(nuc, 0.0), rnd.get(nuc, 0.0), 1e-10), "composition/isotope-differs-from-directly-built-component",
+            out.check(_rel(nd.get(nuc, 0.0), rnd.get(nuc, 0.0), tol_ref), "composition/isotope-differs-from-directly-built-component",
                       lambda: "%s (%s, mods %r): %s %r, directly built %r" % (where, matname, mods, nuc, nd.get(nuc, 0.0), rnd.get(nuc, 0.0)))
     # defining relations of the modifications
     def mass(n):
@@ -570,7 +596,7 @@ def _check_composition(out, exp, cexp, c, where):
     if "B10_wt_frac" in mods:
         b = mass("B10") / masses.get("B", float("inf"))
         out.check(_rel(b, mods["B10_wt_frac"], 1e-9), "mods/B10_wt_frac", lambda: "%s: B10/B mass %r, requested %r" % (where, b, mods["B10_wt_frac"]))
-    if "TD_frac" in mods:
+    if "TD_frac" in mods and iso is None:
         f = mods["TD_frac"]
         out.check(c.p.theoreticalDensityFrac == f, "mods/TD_frac-parameter", lambda: "%s: theoreticalDensityFrac %r requested %r" % (where, c.p.theoreticalDensityFrac, f))
         base = materials.resolveMaterialClassByName(matname)()
@@ -638,7 +664,33 @@ def _check_component(out, exp, bexp, cexp, b, c, where, burn, deep):
         _check_composition(out, exp, cexp, c, where)
 
 
-def bp_check(out, spec, text, exp, r, deep=True):
+def _check_blocks(out, exp, dexp, blocks, where_a, dname, burn, deep_here):
+    z = 0.0
+    for k, (b, bexp) in enumerate(zip(blocks, dexp["blocks"])):
+        where_b = "%s %r block %d" % (where_a, dname, k)
+        out.check(b.getType() == bexp["name"], "block/order", lambda: "%s is %r, document says %r" % (where_b, b.getType(), bexp["name"]))
+        out.check(b.p.height == bexp["height"] and b.getHeight() == bexp["height"], "block/height", lambda: "%s height %r, document %r" % (where_b, b.p.height, bexp["height"]))
+        out.check(_rel(b.p.zbottom, z, 1e-12) if z else b.p.zbottom == 0.0, "block/elevation", lambda: "%s bottom at %r, heights below sum to %r" % (where_b, b.p.zbottom, z))
+        z += bexp["height"]
+        out.check(_rel(b.p.ztop, z, 1e-12), "block/elevation", lambda: "%s top at %r, heights sum to %r" % (where_b, b.p.ztop, z))
+        out.check(b.p.xsType == bexp["xsType"], "block/xsType", lambda: "%s xs type %r, document %r" % (where_b, b.p.xsType, bexp["xsType"]))
+        out.check(b.p.axMesh == bexp["axMesh"], "block/axMesh", lambda: "%s mesh points %r, document %r" % (where_b, b.p.axMesh, bexp["axMesh"]))
+        out.check(_flag_names(b.p.flags) == bexp["flags"], "block/flags", lambda: "%s flags %r, document %r" % (where_b, _flag_names(b.p.flags), bexp["flags"]))
+        if bexp["gridName"] is not None:  # (blocks without a grid name may get an automatic grid later: Block.autoCreateSpatialGrids)
+            out.check(b.spatialGrid is not None, "block/grid", lambda: "%s has no grid, document names %r" % (where_b, bexp["gridName"]))
+        if bexp["axialTarget"]:
+            out.check(b.p.axialExpTargetComponent == bexp["axialTarget"], "block/axial-expansion-target", lambda: "%s target %r document %r" % (where_b, b.p.axialExpTargetComponent, bexp["axialTarget"]))
+        # (children are in sort() order after reactors.factory, not in document order: matched by their unique names)
+        comps = {c.name: c for c in b}
+        names = sorted(c.name for c in b)
+        if not out.check(names == sorted(c["name"] for c in bexp["components"]), "block/components", lambda: "%s components %r, document %r" % (where_b, names, [c["name"] for c in bexp["components"]])):
+            continue
+        for cexp in bexp["components"]:
+            c = comps[cexp["name"]]
+            _check_component(out, exp, bexp, cexp, b, c, "%s component %r" % (where_b, c.name), burn, deep_here)
+
+
+def bp_check(out, spec, text, exp, r, deep=True, bp=None):
     """Compare the constructed reactor with the expectation record."""
     core = r.core
     sysx = exp["systems"]["core"]
@@ -693,29 +745,15 @@ def bp_check(out, spec, text, exp, r, deep=True):
             continue
         deep_here = deep and dname not in seen_designs
         seen_designs.add(dname)
-        z = 0.0
-        for k, (b, bexp) in enumerate(zip(blocks, dexp["blocks"])):
-            where_b = "%s %r block %d" % (where_a, dname, k)
-            out.check(b.getType() == bexp["name"], "block/order", lambda: "%s is %r, document says %r" % (where_b, b.getType(), bexp["name"]))
-            out.check(b.p.height == bexp["height"] and b.getHeight() == bexp["height"], "block/height", lambda: "%s height %r, document %r" % (where_b, b.p.height, bexp["height"]))
-            out.check(_rel(b.p.zbottom, z, 1e-12) if z else b.p.zbottom == 0.0, "block/elevation", lambda: "%s bottom at %r, heights below sum to %r" % (where_b, b.p.zbottom, z))
-            z += bexp["height"]
-            out.check(_rel(b.p.ztop, z, 1e-12), "block/elevation", lambda: "%s top at %r, heights sum to %r" % (where_b, b.p.ztop, z))
-            out.check(b.p.xsType == bexp["xsType"], "block/xsType", lambda: "%s xs type %r, document %r" % (where_b, b.p.xsType, bexp["xsType"]))
-            out.check(b.p.axMesh == bexp["axMesh"], "block/axMesh", lambda: "%s mesh points %r, document %r" % (where_b, b.p.axMesh, bexp["axMesh"]))
-            out.check(_flag_names(b.p.flags) == bexp["flags"], "block/flags", lambda: "%s flags %r, document %r" % (where_b, _flag_names(b.p.flags), bexp["flags"]))
-            if bexp["gridName"] is not None:  # (blocks without a grid name may get an automatic grid later: Block.autoCreateSpatialGrids)
-                out.check(b.spatialGrid is not None, "block/grid", lambda: "%s has no grid, document names %r" % (where_b, bexp["gridName"]))
-            if bexp["axialTarget"]:
-                out.check(b.p.axialExpTargetComponent == bexp["axialTarget"], "block/axial-expansion-target", lambda: "%s target %r document %r" % (where_b, b.p.axialExpTargetComponent, bexp["axialTarget"]))
-            # (children are in sort() order after reactors.factory, not in document order: matched by their unique names)
-            comps = {c.name: c for c in b}
-            names = sorted(c.name for c in b)
-            if not out.check(names == sorted(c["name"] for c in bexp["components"]), "block/components", lambda: "%s components %r, document %r" % (where_b, names, [c["name"] for c in bexp["components"]])):
+        _check_blocks(out, exp, dexp, blocks, where_a, dname, burn, deep_here)
+    # designs the core map does not use are constructed as well (Blueprints.assemblies): every user of a shared entry counts
+    if bp is not None and deep:
+        for dname, dexp in exp["designs"].items():
+            a = bp.assemblies.get(dname)
+            if dname in seen_designs or a is None:
                 continue
-            for cexp in bexp["components"]:
-                c = comps[cexp["name"]]
-                _check_component(out, exp, bexp, cexp, b, c, "%s component %r" % (where_b, c.name), burn, deep_here)
+            if out.check(len(a) == len(dexp["blocks"]), "assembly/block-count", lambda: "design %r: %d blocks, document %d" % (dname, len(a), len(dexp["blocks"]))):
+                _check_blocks(out, exp, dexp, list(a), "unplaced design", dname, burn, True)
     # the spent fuel pool, if the document has one, is there and empty
     for sname, sx in exp["systems"].items():
         if sx["type"] == "sfp":
@@ -737,6 +775,16 @@ def bp_labels(out, spec, exp):
     kind, size = spec["core"]["kind"], spec["core"]["size"]
     full = len(mm.domain_cells(kind, tuple(size) if kind == "cart" else size)) if (kind == "cart" or size > 0) else 1
     holes = len(core["locations"]) < full
+    users = {}
+    for d in exp["designs"].values():
+        for b in d["blocks"]:
+            for c in b["components"]:
+                if c["isotopics"]:
+                    users.setdefault(c["isotopics"], []).append(bool(c["mods"]))
+    if any(len(u) >= 2 for u in users.values()):
+        out.label("shared-isotopics")
+    if any(len(u) >= 2 and any(u) and not all(u) for u in users.values()):
+        out.label("shared-isotopics-partly-modified")
     if grid:
         out.label("pin-lattice")
     if holes:
@@ -753,8 +801,8 @@ def bp_execute(case):
     text = c18_bp.render(spec)
     exp = ev.evaluate(text)
     out.nontrivial = bp_labels(out, spec, exp)
-    cs, bp, r = _build(spec, text)
-    bp_check(out, spec, text, exp, r)
+    _cs, bp, r = _build(spec, text)
+    bp_check(out, spec, text, exp, r, bp=bp)
     return out
 
 
@@ -801,6 +849,26 @@ def det_execute(case):
     o2 = _strip_numbering(ob.observe(r2, params=True, serial=False), {})
     for d in ob.diff(o1, o2, limit=4):
         out.fail("determinism/" + _sig_of(d), "two constructions from the same text differ: " + d)
+    # the same document with the assembly designs listed in reverse order and every stack upside down: each component keeps
+    # its composition (a component is described by its own block, modifications and isotopics entry, not by its neighbours)
+    pspec = c18_bp.permuted(spec)
+    _cs, bp3, _r3 = _build(pspec, c18_bp.render(pspec))
+    for dname, a in _bp.assemblies.items():
+        a3 = bp3.assemblies.get(dname)
+        if not out.check(a3 is not None and len(a3) == len(a), "determinism/permuted-structure", lambda: "design %r missing or of other length in the permuted document" % dname):
+            continue
+        n = len(a)
+        for k in range(n):
+            c1 = {c.name: c for c in a[k]}
+            c3 = {c.name: c for c in a3[n - 1 - k]}
+            if not out.check(sorted(c1) == sorted(c3), "determinism/permuted-structure", lambda: "design %r block %d: components %r vs %r" % (dname, k, sorted(c1), sorted(c3))):
+                continue
+            for name in sorted(c1):
+                n1 = {x: float(v) for x, v in c1[name].getNumberDensities().items() if v != 0.0}
+                n3 = {x: float(v) for x, v in c3[name].getNumberDensities().items() if v != 0.0}
+                same = set(n1) == set(n3) and all(_rel(n1[x], n3[x], 1e-12) for x in n1)
+                out.check(same, "determinism/composition-depends-on-construction-order",
+                          lambda: "design %r block %d component %r: %r in document order, %r with designs and stacks reversed" % (dname, k, name, n1, n3))
     return out
 
 
@@ -904,10 +972,11 @@ PARTS = [
          rule="Hypothesis: whole blueprint documents (see vp/gen/c18_bp.py) built with Blueprints.load + reactors.factory and compared "
               "with the expectation record of the independent evaluator (vp/model/c18_bp_eval.py, ruamel only): locations, design, "
               "coordinates, block order/heights/elevations/xs/mesh/flags, component order/shape/material/temperatures/mult/cold "
-              "dimensions/links/lattice positions/flags, compositions; non-trivial = >= 2 designs in the core, a link and a hole"),
+              "dimensions/links/lattice positions/flags, compositions of every user of shared isotopics entries; non-trivial = >= 2 designs in the core, a link and a hole"),
     Part("determinism", det_execute, strategy=bp_strategy, budget={"quick": 60, "thorough": 4000}, procs={"quick": 3, "thorough": 16},
          rule="the same generated document constructed twice in one process: observe() records (all parameters, grids, locators, "
-              "dimensions, number densities) equal apart from serial numbers and assembly numbering; non-trivial as for blueprints"),
+              "dimensions, number densities) equal apart from serial numbers and assembly numbering; the document with designs and "
+              "stacks in reverse order gives every component the same composition; non-trivial as for blueprints"),
     Part("inconsistent", bad_execute, strategy=bad_strategy, budget={"quick": 360, "thorough": 20000}, procs={"quick": 4, "thorough": 16},
          rule="a well-formed generated document with exactly one inconsistency injected (unknown specifier, list of wrong length for "
               "heights/xs types/mesh points/modifications, pins larger than the duct, clad with id > od, duplicate grid location or "
@@ -936,6 +1005,13 @@ ASSUMPTIONS[:] = [
     "a Circle built directly with the same material class, modifications handed to Material.applyInputParams and the same "
     "temperatures; in addition the defining relations are checked on the constructed component alone (rel 1e-9): U235/U, B10/B and "
     "Zr mass shares, TD_frac as the ratio to the density without it, custom-isotopic mass shares, number densities and density",
+    "custom isotopics entries are frequently shared by several components (different blocks, positions and assembly designs); "
+    "every user is compared independently with the input numbers (element and isotope mass shares); a UZr user of a pure U-Zr "
+    "entry that also gets U235_wt_frac / ZR_wt_frac must equal the directly built modified UZr (modifications have the final "
+    "word, documented in _constructMaterial) with the entry's density kept; the generator makes the first user in construction "
+    "order a modified one and the last an unmodified one; designs absent from the core map are checked through Blueprints.assemblies",
+    "determinism also rebuilds the document with the assembly designs listed in reverse and every stack upside down: each "
+    "component's number densities are unchanged (rel 1e-12)",
     "structure (names, order, heights, xs types, mesh points, flags, shapes, materials, temperatures, multiplicities, cold dimensions, "
     "link targets, lattice positions) is compared exactly; elevations rel 1e-12; coordinates abs 1e-9 * pitch * (1+|i|+|j|)",
     "all generated documents keep every location inside the represented symmetry domain (no cells on the 120-degree edge of a "
